@@ -190,7 +190,7 @@ CHECKS = {
                   "their templates, the line span of the raising form; each program is compiled and run and the innermost "
                   "traceback frame of the module compared with the span",
         text="Chains of up to 2 (thorough 3) out of 31 enclosing constructs around "
-             "25 raising forms of 1-3 lines (code generated by macro / reader macro / do-mac calls, call, division, subscript, attribute, unbound name, raise, assert, unpacking, and forms the compiler rewrites first: multi-value augmented assignment, comparison, chainc, keyword call, cut; and inline Python through py / pys: comprehension condition and iterable, lambda default, with item, call).",
+             "29 raising forms of 1-3 lines (code generated by macro / reader macro / do-mac calls, call, division, subscript, attribute, unbound name, raise, assert, unpacking, and forms the compiler rewrites first: multi-value augmented assignment, comparison, chainc, keyword call, cut; and inline Python through py / pys: comprehension condition and iterable, lambda default, with item, call).",
         note="The harness verifies the layout the spec computed against the rendered text before trusting it."),
     "C18": dict(
         engine="reader", level="model_checking", design="5.4, 6/C18",
